@@ -21,7 +21,7 @@ from ..cfg import CFG, branch_facts, guarded_by
 from ..core import (AnalysisError, call_name, const_str, dotted, find_calls,
                     is_self_attr, kwarg, last_attr, names_in, short, txt,
                     walk)
-from ..normalize import expand_locals
+from ..normalize import expand_locals, inline_helpers
 
 ASSUMPTIONS = [
     "NOT decided: numerical equality of a computed feature with a fresh "
@@ -578,7 +578,7 @@ def r64(ctx, instances):
 
 def r65(ctx, repo):
     rel = FA + "ancillary_feature.py"
-    func = repo.func(rel, "AncillaryFeature.hash")
+    func = inline_helpers(repo, rel, repo.func(rel, "AncillaryFeature.hash"))
     ds = func.args.args[1].arg
     updates = [c for c in find_calls(func, attr="update")]
     hashers = {txt(c.func.value) for c in updates}
